@@ -203,6 +203,16 @@ pub fn algo_cases(rng: &mut Rng, count: usize, thorough: bool) -> Vec<AlgoCase> 
         let v = matrix_f64(rng, n as usize, fam, true);
         out.push(AlgoCase { algo, method, wide: true, n, bits: to_bits(&v, true), family: fam });
     }
+    // a few cases beyond 64 observations (word-size effects in bitmaps, block sizes):
+    // the model is evaluated on them too, so keep them few
+    let big = if thorough { 8 } else { 4 };
+    for k in 0..big {
+        let (algo, method) = [(1u8, 0u8), (2, 1), (3, 5), (0, 2), (2, 4), (3, 0), (0, 0), (2, 3)][k % 8];
+        let n = rng.range(65, if thorough { 80 } else { 70 });
+        let fam = if k % 2 == 0 { "uniform" } else { "lattice" };
+        let v = matrix_f64(rng, n as usize, fam, true);
+        out.push(AlgoCase { algo, method, wide: true, n, bits: to_bits(&v, true), family: fam });
+    }
     out
 }
 
